@@ -15,6 +15,7 @@ RULE = ("constraint-free programs from the typed generator in well-typed mode (p
         "call, a selector, a module, a select or a copy.")
 RULE += (" " + 'Also: a dynamic-heterogeneity family - 34 program shapes x every ordered pair of the four scalar types - in which select arms / defaults, list elements, callback results, copy overrides, module parameters and closure results of DIFFERENT types occur and only the one that is taken is used, according to its own type; record functions reading up to four fields of an untyped parameter; callbacks and functions whose parameters are named like caller bindings of other types (also inside composite literals); tuples whose fields are named like caller bindings.')
 RULE += (" " + 'Nine further heterogeneity shapes: a reduce that grows its accumulator (copy adds a field, list gets other elements), select arms of unknown shape next to candidate sets, modules instantiated with wider tuples than their defaults, type-guarded select arms in functions called with several types.')
+RULE += (" " + 'Five more shapes: modules with 2..3 parameters of which one (first, middle, last, a list of tuples) is given something wider than its default.')
 
 NONTRIVIAL = {"map", "filter", "reduce", "call", "sel", "module", "select", "copy", "fmt", "fmt1", "range", "cast"}
 
